@@ -235,8 +235,7 @@ func (c *ExpressionParser) completeLexicalAnalysis() error {
 		tokenValue := variants.Empty
 
 		switch token.Type() {
-		case tokenizers.Comment:
-		case tokenizers.Whitespace:
+		case tokenizers.Comment, tokenizers.Whitespace:
 			continue
 		case tokenizers.Keyword:
 			{
